@@ -30,6 +30,7 @@
 
 #include "cmi_coroutine.h"
 #include "cmi_memutils.h"
+#include "cmi_verif.h"
 
 /* Assembly function, see src/arc/cmi_coroutine_context_*.asm */
 extern void cmi_coroutine_trampoline(void);
@@ -135,6 +136,11 @@ void cmi_coroutine_context_init(struct cmi_coroutine *cp)
     cmb_assert_release(cp != NULL);
     cmb_assert_debug(cp->stack != NULL);
     cmb_assert_debug(cp->stack_base != NULL);
+
+#ifdef CMI_VERIF_ASAN
+    /* Frames abandoned on this stack by a previous incarnation are dead */
+    __asan_unpoison_memory_region(cp->stack, (size_t)(cp->stack_base - cp->stack));
+#endif
 
     /* Make sure we can recognize if something overwrites the end of stack */
     cp->stack_limit = cp->stack;
